@@ -692,6 +692,11 @@ impl CBORTaggedDecodable for Compressed {
 pub fn hashset_extend_from(set: &mut HashSet<Digest>, other: &HashSet<Digest>)
     ensures final(set)@ == old(set)@.union(other@)
 { unimplemented!() }
+// [A-hashset-singleton] `HashSet::from_iter(iter::once(x))` (rule R-subst)
+#[verifier::external_body]
+pub fn hashset_singleton(x: Digest) -> (r: HashSet<Digest>)
+    ensures r@ == set![x]
+{ unimplemented!() }
 // [A-hashset-clone] HashSet<Digest>::clone (rule R-subst: vstd gives it no specification and its generic
 // allocator parameter prevents an assume_specification that mentions the view)
 #[verifier::external_body]
